@@ -57,7 +57,7 @@ Acts(S) ==
                  s \in S.live, n \in SeqChoices(S), e \in Events}
               \cup {[a |-> "C15Note", s |-> s, t |-> "g1", seq |-> n, event |-> EvAccept, payload |-> ""] :
                       s \in GrpSessions \cap S.live, n \in {S.call.seq} \ {0}}
-      timeout == IF TimerArmed(S) THEN {[a |-> "CallTimeout", t |-> "p12"]} ELSE {}
+      timeout == IF TimerArmed(S) THEN {[a |-> "C15Timeout", t |-> "p12"]} ELSE {}
   IN (IF "Sub" \in Kinds THEN sub ELSE {}) \cup (IF "Leave" \in Kinds THEN leave ELSE {})
      \cup (IF "Disconnect" \in Kinds THEN disc ELSE {}) \cup (IF "Connect" \in Kinds THEN conn ELSE {})
      \cup (IF "SetSelf" \in Kinds THEN setself ELSE {}) \cup (IF "Pub" \in Kinds THEN pub ELSE {})
